@@ -15,7 +15,7 @@ from typing import Dict, List, Optional
 
 from vlib.models import intrec
 
-TASK_NAMES = ['a', 'aa', 'a1', 'a_b', 'foo', 'foo1', 'foo-1', 'b', 'ba',
+TASK_NAMES = ['a', 'aa', 'a1', 'a_b', 'foo', 'foo1', 'g-1', 'b', 'ba',
               'x_y', 'c', 'd2']
 STD = ('succeeded', 'failed', 'finished', 'started', 'submitted',
        'submit-failed', 'expired')
